@@ -83,7 +83,38 @@ def bigs(vals, E):
 
 
 # ---- model zoo ------------------------------------------------------------------------------
+def parse_lit(x):
+    import ast
+    try:
+        return ast.literal_eval(x)
+    except Exception:  # noqa: BLE001
+        return x
+
+
+def build_module(desc, dtype, seed):
+    """a single module from a Modules.tla description"""
+    g = torch.Generator().manual_seed(seed)
+    k = desc["kind"]
+    if k == "Linear":
+        m = torch.nn.Linear(desc["inf"], desc["outf"], bias=desc["bias"])
+        xshape = (3, desc["inf"])
+    elif k == "Conv2d":
+        m = torch.nn.Conv2d(4, 6, 3, stride=parse_lit(desc["stride"]), padding=parse_lit(desc["padding"]), dilation=parse_lit(desc["dilation"]),
+                            groups=desc["groups"], bias=desc["bias"], padding_mode=desc["padding_mode"])
+        xshape = (2, 4, 9, 9)
+    else:
+        m = torch.nn.LayerNorm(tuple(desc["nshape"]), elementwise_affine=desc["affine"], bias=desc["bias"]) if desc["affine"] else \
+            torch.nn.LayerNorm(tuple(desc["nshape"]), elementwise_affine=False)
+        xshape = (3, 4, 16)
+    for p in m.parameters():
+        with torch.no_grad():
+            p.copy_(torch.randn(p.shape, generator=g) * 0.5)
+    return torch.nn.Sequential(m).to(dtype), xshape
+
+
 def build(arch, dtype, seed, nested):
+    if isinstance(arch, dict):
+        return build_module(arch, dtype, seed)
     g = torch.Generator().manual_seed(seed)
     kinds = list(arch)
     mods = []
@@ -134,9 +165,10 @@ def leaf_modules(model):
     return out
 
 
-HYPER = {"Linear": ["in_features", "out_features"],
+HYPER = {"Linear": ["in_features", "out_features"],  # noqa: E501
          "Conv2d": ["in_channels", "out_channels", "kernel_size", "stride", "padding", "dilation", "groups", "padding_mode"],
          "LayerNorm": ["normalized_shape", "eps", "elementwise_affine"]}
+HYPER["Conv2d"] += ["_reversed_padding_repeated_twice"]
 
 
 def base_kind(m):
@@ -271,8 +303,8 @@ def recipe_event(m, name, xin, yout):
     sc = to_fractions(m.output_scale.reshape(-1)[:1])
     es = [low_exp(v) for v in rv + av + ov + sc if not isinstance(v, str) and v != 0]
     E = min(es) if es else 0
-    n = min(len(rv), 24)
-    idx = list(range(n))
+    n = min(len(rv), 48)
+    idx = sorted(set([0, len(rv) - 1] + [int(i * (len(rv) - 1) / max(n - 1, 1)) for i in range(n)]))
     return {"name": name, "kind": base_kind(m), "aq": qname(aq), "wq": qname(m.weight_qtype), "E": E, "K": int(wdq.numel() // wdq.shape[0]) if base_kind(m) != "LayerNorm" else 1,
             "ref": bigs([rv[i] for i in idx], E), "absref": bigs([av[i] for i in idx], E), "out": bigs([ov[i] for i in idx], E),
             "outscale": bigs(sc, E)[0], "out_kind": "QBytes" if isinstance(yout, QBytesTensor) else "Plain",
@@ -319,7 +351,7 @@ class Runner:
         return y, caps
 
     def run(self):
-        self.post({"act": "Init", "arch": list(self.sk["arch"]), "dtype": self.dtype_name, "nested": self.nested})
+        self.post({"act": "Init", "arch": self.sk["arch"] if isinstance(self.sk["arch"], dict) else list(self.sk["arch"]), "dtype": self.dtype_name, "nested": self.nested})
         for a in self.sk["prog"]:
             ev = {"act": a["a"], "args": a, "outcome": "ok"}
             try:
@@ -557,7 +589,7 @@ def _job(job):
     r = run_isolated(run_skeleton, sk, dt, nested, timeout=300)
     if "ok" in r:
         return r["ok"]
-    return [{"act": "Init", "arch": list(sk["arch"]), "dtype": dt, "nested": nested, "mods": [], "globals": {"pre_hooks": 0, "post_hooks": 0, "modes": 0}, "state_digest": ""},
+    return [{"act": "Init", "arch": sk["arch"] if isinstance(sk["arch"], dict) else list(sk["arch"]), "dtype": dt, "nested": nested, "mods": [], "globals": {"pre_hooks": 0, "post_hooks": 0, "modes": 0}, "state_digest": ""},
             {"act": "Crash", "args": {"a": "Crash"}, "outcome": r.get("exc") or ("crash:%s" % r.get("crash")), "msg": (r.get("msg") or "")[:300] + (r.get("tb") or "")[-600:],
              "prog": sk["prog"], "mods": [], "globals": {"pre_hooks": 0, "post_hooks": 0, "modes": 0}, "state_digest": ""}]
 
